@@ -1,5 +1,5 @@
 SPECIFICATION Spec
-CONSTANT Lifo = FALSE
+CONSTANT Lifo = TRUE
 INVARIANT QueueSeen
 INVARIANT VisitBound
 INVARIANT NoDupQueue
